@@ -130,6 +130,11 @@ def install(reg, src):
         c.ensures("G2", lambda res: z3.Implies(z3.Not(sp.occ(e, w)), sp.is_zero(res)))
         c.ensures("wf", lambda res: sp.wf(res))
         c.ensures("G3", lambda res: no_new_vars(c, sp, res, [e]))
+        if not c.verifying:
+            # definitional link used by the derivative compilers (C03): DOMD(e, w) names "the derivative tree built for
+            # (e, w) is inside its domain"; the tree is a function of (e, w), so the name is well defined
+            DOMD = sym.fn("DOMD", sym.Ref, sym.Name, sym.EnvSort, sym.PVSort, sym.B)
+            c.ensures("DOMD", lambda res: DOMD(sp.ref(e), w, sp.E, sp.PVX) == sp.dom(res, sp.E, sp.PVX))
         return w
 
     cases = scalar_node_cases(src)
